@@ -184,7 +184,7 @@ def check_joins(prop, tier, replay):
     return res.finish()
 
 
-TYPED_CLASSES = {"typed-request-path", "typed-request-query", "typed-list-incomplete", "typed-request-count", "typed-readiness-differs", "typed-lifecycle-differs",
+TYPED_CLASSES = {"typed-package-deviates", "typed-request-path", "typed-request-query", "typed-list-incomplete", "typed-request-count", "typed-readiness-differs", "typed-lifecycle-differs",
                  "typed-returns-foreign-object", "typed-nil-event", "typed-list-error-differs", "typed-events-differ", "typed-nil-in-list", "typed-cache-differs",
                  "typed-monitor-nil-callback", "typed-monitor-differs", "typed-monitor-protocol", "typed-healthy-lost-events", "typed-stalled-not-first-buffer", "typed-leak", "typed-error", "crash"}
 
@@ -248,13 +248,18 @@ def check_typed(prop, tier, replay):
     res = vlib.Result(prop, tier, "other")
     st = run_typed(res, tier, TYPED_CLASSES)
     lines, snaps, reqs, pkgs, samples = st["lines"], st["snaps"], st["reqs"], st["pkgs"], st["samples"]
+    # the generated joins: each of them against the reference selection (the replication controller's own
+    # selection rule, known finding D6, is accounted for under C09/C19)
+    js = run_joins(res, tier, JOIN_CLASSES - {"rc-selection"})
     res.coverage = {
-        "explanation": "Decided with the specification: (a) behavioural faithfulness - for all 12 typed packages the same seeded scenario (creates, updates, deletes, an object of another type on the stream, gated first list, close) is observed through the typed controller / subscription / cache / monitor and through the untyped core side by side, and TLC requires the typed view to equal the untyped view restricted to the type; (b) for all 12 typed clients the List and Watch requests (namespaced and all-namespaces) recorded by an in-memory HTTP transport are compared by TLC with the resource table in TypedRecords.tla. NOT decided: the clause 'the generated sources equal their templates instantiated for the type' is a statement about program text and has no counterpart in a state-machine specification (DESIGN.md section 6).",
+        "explanation": "Decided with the specification: (a) behavioural faithfulness - for all 12 typed packages the same seeded scenario (creates, updates, deletes, an object of another type on the stream, gated first list, close) is observed through the typed controller / subscription / cache / monitor and through the untyped core side by side, and TLC requires the typed view to equal the untyped view restricted to the type; (b) for all 12 typed clients the List and Watch requests (namespaced and all-namespaces) recorded by an in-memory HTTP transport are compared by TLC with the resource table in TypedRecords.tla, and List against a chunk-aware fake holding 3 / 40 / 1300 objects must return all of them; (c) packages that run the same seeded scenario must observe the same type-independent signature; (d) the nine joins against the reference selection (JoinRecords). NOT decided: the clause 'the generated sources equal their templates instantiated for the type' is a statement about program text and has no counterpart in a state-machine specification (DESIGN.md section 6).",
         "evaluations": snaps + reqs, "distinct_nontrivial": snaps + reqs,
         "samples": samples, "packages": sorted(pkgs), "snapshots": snaps, "requests": reqs,
-        "states": lines, "transitions": lines,
+        "joins": sorted(js["joins"]), "join_snapshots": js["snaps"],
+        "states": lines + js["lines"], "transitions": lines + js["lines"],
         "checker_cmd": "tlc trace/TypedRecords.tla over records of `harness typed`",
     }
     res.assumptions = ["both controllers list the same server state (no mutation until both are ready), so their event sequences are comparable element by element",
-                       "generated joins are covered behaviourally by C09"]
+                       "generated joins: the same scenarios and judge (JoinRecords) as C09",
+                       "instances of one template agree on a scenario: four packages run each seeded scenario and must observe the same type-independent signature (a behavioural consequence of the source-level clause)"]
     return res.finish()
